@@ -225,9 +225,73 @@ func shortFn(n string) string {
 func (f *Frame) havocAll(cur *blockCur) {
 	old := cur.st
 	ns := f.c.newBase()
+	for _, lo := range f.c.localObjs {
+		for _, k := range lo.keys {
+			ns = ns.set(k, fmt.Sprintf("(store %s %s (select %s %s))", ns.get(k), lo.ref, old.get(k), lo.ref))
+		}
+	}
 	// ghost counters survive
+	g := HeapKey{Name: "G_effects", Sort: "Int"}
+	if _, used := f.c.heapKeys[g.Name]; used {
+		ns = ns.set(g, old.get(g))
+	}
 	cur.st = ns
-	_ = old
+}
+
+type localObj struct {
+	ref  string
+	keys []HeapKey
+}
+
+// escapes reports whether the address of a local allocation may become known to other code.
+func escapes(a ssa.Value) bool {
+	seen := map[ssa.Value]bool{}
+	var walk func(v ssa.Value) bool
+	walk = func(v ssa.Value) bool {
+		if seen[v] {
+			return false
+		}
+		seen[v] = true
+		refs := v.Referrers()
+		if refs == nil {
+			return true
+		}
+		for _, r := range *refs {
+			switch x := r.(type) {
+			case *ssa.DebugRef:
+			case *ssa.FieldAddr:
+				if walk(x) {
+					return true
+				}
+			case *ssa.IndexAddr:
+				if walk(x) {
+					return true
+				}
+			case *ssa.UnOp:
+				// load: fine
+			case *ssa.Store:
+				if x.Val == v {
+					return true
+				}
+			case *ssa.Slice:
+				if walk(x) {
+					return true
+				}
+			case *ssa.Call:
+				if b, ok := x.Call.Value.(*ssa.Builtin); ok {
+					switch b.Name() {
+					case "len", "cap", "copy":
+						continue
+					}
+				}
+				return true
+			default:
+				return true
+			}
+		}
+		return false
+	}
+	return walk(a)
 }
 
 // pureUF models a deterministic side-effect-free function as an uninterpreted function of its arguments.
@@ -341,6 +405,36 @@ func (f *Frame) execBuiltin(cur *blockCur, in ssa.Instruction, b *ssa.Builtin, c
 		return Val{T: res.Type(), S: "iface_nil"}
 	case "ssa:wrapnilchk":
 		return args[0]
+	case "Slice": // unsafe.Slice(ptr, n)
+		c.assume("unsafe.Slice(p, n) is the slice of n elements whose backing array is the object p points to")
+		n := c.toIdx(args[1])
+		f.safety("unsafe-slice", cur, c.iLe(c.so.idxLit(0), n), in, "")
+		return Val{T: res.Type(), S: c.define(f.prefixSym()+res.Name(), "Slice", fmt.Sprintf("(mk_slice %s %s %s %s)", c.termOf(args[0]), c.so.idxLit(0), n, n))}
+	case "SliceData": // unsafe.SliceData(s)
+		c.assume("unsafe.SliceData(s) is the reference of s's backing array (offset folded away: valid for offset 0)")
+		return Val{T: res.Type(), S: c.define(f.prefixSym()+res.Name(), "Int", fmt.Sprintf("(s_ref %s)", args[0].S))}
+	case "String": // unsafe.String(ptr, n)
+		c.assume("unsafe.String(p, n) is an abstract string str_of_ptr(p, n) of length n")
+		c.needDecl("str_of_ptr", fmt.Sprintf("(declare-fun str_of_ptr (Int %s) Str)", c.so.idxSort()))
+		if !c.needed["str_of_ptr_ax"] {
+			c.needed["str_of_ptr_ax"] = true
+			if c.mode == ModeInt {
+				c.axiom("(forall ((p Int) (n Int)) (! (=> (>= n 0) (= (slen (str_of_ptr p n)) n)) :pattern ((str_of_ptr p n))))", "str_of_ptr")
+			}
+		}
+		n := c.toIdx(args[1])
+		f.safety("unsafe-string", cur, c.iLe(c.so.idxLit(0), n), in, "")
+		return Val{T: res.Type(), S: c.define(f.prefixSym()+res.Name(), "Str", fmt.Sprintf("(str_of_ptr %s %s)", c.termOf(args[0]), n))}
+	case "StringData": // unsafe.StringData(s)
+		c.needDecl("str_of_ptr", fmt.Sprintf("(declare-fun str_of_ptr (Int %s) Str)", c.so.idxSort()))
+		c.needDecl("str_data", "(declare-fun str_data (Str) Int)")
+		if !c.needed["str_data_ax"] {
+			c.needed["str_data_ax"] = true
+			c.axiom("(forall ((s Str)) (! (= (str_of_ptr (str_data s) (slen s)) s) :pattern ((str_data s))))", "str_data")
+		}
+		return Val{T: res.Type(), S: c.define(f.prefixSym()+res.Name(), "Int", fmt.Sprintf("(str_data %s)", args[0].S))}
+	case "Add":
+		f.unsupported("unsafe.Add")
 	case "clear":
 		f.unsupported("clear")
 	}
